@@ -1496,6 +1496,9 @@ func (in *Interp) doCall(fr *Frame, c *ssa.CallCommon, site *ssa.Call) Value {
 
 func (in *Interp) builtin(b *ssa.Builtin, args []Value, site *ssa.Call) Value {
 	ts := in.ts
+	if b.Name() == "recover" {
+		return IfaceV{}
+	}
 	switch b.Name() {
 	case "len":
 		switch c := args[0].(type) {
@@ -1569,6 +1572,12 @@ func (in *Interp) builtin(b *ssa.Builtin, args []Value, site *ssa.Call) Value {
 		unsup("builtin %s", b.Name())
 	case "print", "println":
 		return nil
+	case "recover":
+		// no panic is ever in flight in this interpreter (a panic ends the path as a finding)
+		return IfaceV{}
+	}
+	if len(args) == 0 {
+		unsup("builtin %s", b.Name())
 	}
 	unsup("builtin %s on %T", b.Name(), args[0])
 	return nil
